@@ -10,7 +10,7 @@ from vf import common, chart as C, trace as T, xform, c01lib, refscxml, tables
 from vf.common import Check
 from vf.checks.c01 import NONTRIVIAL
 
-TOK = re.compile(r'Establishing optimal transition set for event (\d+)|Exiting state (\d+)|Entering state (\d+)|Taking transition (\d+)|((?:[NXTHIZPD]|R[FVIE])\d+): (-?\d+)|Found (NO) transitions|Machine (finished)|(Entering initial default completion)')
+TOK = re.compile(r'Establishing optimal transition set for event (\d+)|Exiting state (\d+)|Entering state (\d+)|Taking transition (\d+)|((?:[NXTHIZPD]|R[FVIEPC])\d+): (-?\d+)|Found (NO) transitions|Machine (finished)|(Entering initial default completion)')
 
 
 def make_case(seed):
@@ -37,6 +37,10 @@ def parse_spin(out, ch):
     nodes, trans, byid = tables.build(ch)
     name = dict((n.idx, n.id or ('root' if n.idx == 0 else '?')) for n in nodes)
     steps = []; cur = None
+    # the model prints a log value without a newline; a "<pid>: Sending ..." trace line of a following <send>/<raise> is glued to it
+    # ("X3: 11: Sending I1" = value 1, pid 1).
+    # The models have two processes, the pid is one digit.
+    out = re.sub(r'(?<=\d)(?=\d: Sending )', '\n', out)
     for m in TOK.finditer(out):
         if m.group(1) is not None:
             cur = {'evi': int(m.group(1)), 'acts': []}; steps.append(cur)
